@@ -79,7 +79,7 @@ fn backend<B: Backend>(opts: &Opts, rep: &mut Report) {
 
     for &kind in WKS {
         // --- grid: keys x secrets
-        let n_grid = opts.size(60, 600);
+        let n_grid = if kind == Wk::Seal && B::VER != 1 { opts.size(600, 6000) } else { opts.size(60, 600) };
         for g in 0..n_grid {
             idx += 1;
             if !opts.mine(idx) {
@@ -116,7 +116,7 @@ fn backend<B: Backend>(opts: &Opts, rep: &mut Report) {
                     pw_param_bytes(B::VER, 1 + (g % 3) as u32, [8u64 * 1024, 8704, 16 * 1024, 64 * 1024, 65000, 1024 * 1024][g % 6], 1)
                 };
             }
-            let (sk, pk) = recipients[g % recipients.len()].clone();
+            let (sk, pk) = if B::VER != 1 && g % 4 != 0 { B::gen_pke_pair(&mut rng) } else { recipients[g % recipients.len()].clone() };
             s.pke_sk = sk;
             s.pke_pk = pk;
             one::<B>(rep, kind, &key_raw, &s, "grid");
